@@ -5,6 +5,13 @@
 pub struct StandardDecisionNNFBuilder<'a> { _p: core::marker::PhantomData<&'a u8> }
 
 impl<'a> StandardDecisionNNFBuilder<'a> {
+    /// the `order: VarOrder` field (never mutated after construction)
+    pub uninterp spec fn order_view(&self) -> VarOrder;
+    #[verifier::external_body]
+    pub fn order_ref(&'a self) -> (r: &'a VarOrder)
+        ensures *r == self.order_view(),
+    { unimplemented!() }
+
     #[verifier::external_body]
     pub fn table_get_or_insert(&'a self, n: BddNode<'a>) -> (r: &'a BddNode<'a>)
         ensures *r == n,
